@@ -98,7 +98,7 @@ class OneOf:
 
 def check_table(decs: Sequence[Decision], atoms: Sequence[str], spec: Callable[[Dict[str, bool]], Any], outcome: Callable[[Decision], Any],
                 dont_care: Iterable[str] = (), equiv: Optional[Dict[str, Tuple[str, bool]]] = None, strict_foreign: bool = False,
-                assume: Optional[Dict[str, bool]] = None) -> Tuple[List[str], List[str]]:
+                assume: Optional[Dict[str, bool]] = None, constraint: Optional[Callable[[Dict[str, bool]], bool]] = None) -> Tuple[List[str], List[str]]:
     """Returns (violations, unknowns).  *atoms* are canonical keys; spec(total assignment) -> expected outcome or IGNORE.
     equiv: other spellings of a specification atom {text: (atom, same polarity?)} (library knowledge, e.g. 'len(p.components) > 1' == 'p.value is not None').
     strict_foreign: a path whose outcome differs from the specification is a violation even when it also tests conditions the specification does not know
@@ -147,6 +147,12 @@ def check_table(decs: Sequence[Decision], atoms: Sequence[str], spec: Callable[[
         for bits in itertools.product([False, True], repeat=len(missing)):
             total = dict(part)
             total.update(dict(zip(missing, bits)))
+            if constraint is not None:
+                # everything this path knows (also about conditions outside the table) plus the completion, by canonical key
+                full = dict(assign)
+                full.update(total)
+                if not constraint(full):
+                    continue
             exp = spec(total)
             if exp is IGNORE:
                 continue
